@@ -17,7 +17,7 @@ From Clemens.C03Text Require Import GameReplay TextExamples.
 From Clemens.C03Recon Require Import FideText Recon.
 From ClemensGen Require Import GoConsts.
 From Clemens.EngineE2E Require Import EngBase EngDispatch EngState EngSearch EngE2E EngText EngFinal.
-From WipGame Require Import GameInv GameAfter GameWhole.
+From Clemens.GameThm Require Import GameInv GameAfter GameWhole.
 Import ListNotations.
 Open Scope list_scope.
 
